@@ -227,18 +227,38 @@ struct Sender<T> { t: Option<T> }
 #[verifier::external_body]
 #[verifier::reject_recursive_types(T)]
 struct SharedResultGet<T> { t: Option<T> }
-#[verifier::external_body]
+// driver/utils.rs SharedResultSet: first `set` wins (value carried as a ghost; `&mut self` for the
+// same reason as above)
 #[verifier::reject_recursive_types(T)]
-struct SharedResultSet<T> { t: Option<T> }
+struct SharedResultSet<T> { value: Ghost<Option<T>> }
+impl SharedResultSet<DriverError> {
+    #[verifier::external_body]
+    fn set(&mut self, result: DriverError) -> (r: bool)
+        ensures final(self).value@ == (if old(self).value@ is None { Some(result) } else { old(self).value@ }),
+    { unimplemented!() }
+}
 // quinn::Connection::send_datagram answers by an unknown function of the bytes it is given
 #[verifier::external_body]
 struct QConnectionError { x: u8 }
 enum QSendDatagramError { UnsupportedByPeer, Disabled, TooLarge, ConnectionLost(QConnectionError) }
 uninterp spec fn send_outcome(wire: Seq<u8>) -> Result<(), QSendDatagramError>;
 struct QBytes { b: Vec<u8> }
+#[derive(Clone, Copy)]
+struct QVarInt { v: u64 }
+// driver/utils.rs varint_w2q keeps the value (Kani p_varint_conversions_identity on the real crate)
 #[verifier::external_body]
-struct QuicConnection { x: u8 }
+fn varint_w2q(varint: VarInt) -> (r: QVarInt) ensures r.v == varint.v { unimplemented!() }
+#[verifier::external_body]
+fn empty_reason() -> (r: &'static [u8]) ensures r@.len() == 0 { b"" }
+// the QUIC connection handle: `closes` logs the application error codes it was told to close with
+// (quinn's `close` takes `&self`; the worker owns its handle, the stand-in takes `&mut self` to carry
+// the log)
+struct QuicConnection { closes: Ghost<Seq<u64>> }
 impl QuicConnection {
+    #[verifier::external_body]
+    fn close(&mut self, error_code: QVarInt, reason: &[u8])
+        ensures final(self).closes@ == old(self).closes@.push(error_code.v),
+    { unimplemented!() }
     // assumed: datagrams are never disabled locally on an endpoint this crate configures
     #[verifier::external_body]
     fn send_datagram(&self, data: QBytes) -> (r: Result<(), QSendDatagramError>)
@@ -448,6 +468,38 @@ impl Worker {
 //@ requires first_frame.kind_spec() != FrameKind::WebTransport, stream.expected@ == expected_refusal(first_frame)
 //@ ensures
 //@ | bi_post(stream, first_frame, r),
+//@ end
+}
+
+// what the worker's event loop ends with (it only ever returns an error): unknown
+uninterp spec fn run_outcome(w: Worker) -> DriverError;
+// the CONNECTION_CLOSE the endpoint sends for the way the driver ended: the registry code of a
+// protocol error (RFC 9114 8 / WT draft), H3_NO_ERROR after the peer closed the session, nothing
+// when the connection is already gone
+spec fn closes_for(e: DriverError) -> Seq<u64> {
+    match e {
+        DriverError::Proto(c) => seq![registry(c)],
+        DriverError::ApplicationClosed(_) => seq![registry(ErrorCode::NoError)],
+        DriverError::NotConnected => Seq::<u64>::empty(),
+    }
+}
+impl Worker {
+    #[verifier::external_body]
+    fn run_impl(&mut self) -> (r: Result<(), DriverError>)
+        ensures r == Err::<(), DriverError>(run_outcome(*old(self))),
+            final(self).quic_connection == old(self).quic_connection, final(self).driver_result == old(self).driver_result,
+    { unimplemented!() }
+
+// C12 / C04: whatever ends the driver, the code put on the wire is the prescribed one and the
+// SAME error is what every pending and later operation is told (driver_result)
+//@ extract wtransport/src/driver/mod.rs >> mod worker >> impl Worker >> fn run
+//@ deawait
+//@ droplog
+//@ mutself
+//@ resub `b""` => `empty_reason()`
+//@ resub `\.expect_err\("[^"]*"\)` => `.unwrap_err()`
+//@ requires self.driver_result.value@ is None
+//@ epilogue proof { assert(this.quic_connection.closes@ =~= self.quic_connection.closes@ + closes_for(run_outcome(self))); assert(this.driver_result.value@ == Some(run_outcome(self))); }
 //@ end
 }
 
